@@ -4,7 +4,7 @@ public API (keys.sign / keys.verify / Signature.parse_bytes / encoding.der_encod
   sign <d> <msghex> <k|-> <ht> <form>     form = 2 letters: txid as b(ytes)/h(ex str)/U(pper-case hex str); key as K(ey)/H(DKey)/S(hex str)
       -> "<r> <s> <der+hashtype hex>"     (signed twice; "NONDET" if the two answers differ; "BADK" if .k is not
                                            the nonce that was asked for)
-  verify <digesthex> <sighex> <pubkeyhex> <form>   form = 3 letters: digest b/h, signature b/h, key K(ey object)/B(ytes)
+  verify <digesthex> <sighex> <pubkeyhex> <form>   form = 3 letters: digest b/h, signature b/h, key K(ey object)/B(ytes)/L (Key(.., strict=False))
       -> 1 | 0 | ERR
   parse <sighex>  -> "<r> <s> <hash_type> <as_der_encoded hex>" | ERR
   nonce <d> <h1hex> -> fastecdsa RFC6979 (prehashed) nonce, the generator Signature.create uses
@@ -59,7 +59,7 @@ def dispatch(t):
     if c == 'verify':
         dg, sg, pk, form = unhx(t[1]), unhx(t[2]), unhx(t[3]), t[4]
         try:
-            key = Key(pk) if form[2] == 'K' else pk
+            key = Key(pk) if form[2] == 'K' else Key(pk, strict=False) if form[2] == 'L' else pk
             r = verify(dg if form[0] == 'b' else dg.hex(), sg if form[1] == 'b' else sg.hex(), key)
         except Exception:
             return 'ERR'
